@@ -11,6 +11,8 @@ WT = "/tmp/recs-mut"
 
 M = {
     "C17": [
+        # finding F22 un-repaired: first hit in hash order instead of the lowest address
+        ("find-label-first-hit-F22", "src/bin_archive.rs", ".map(|(address, _)| *address)\n            .min()", ".map(|(address, _)| *address)\n            .next()"),
         ("reader-last-slot", "src/aset.rs", "for bit in 0..32 {\n                        if (flags & (1 << bit)) != 0 {", "for bit in 0..32 {\n                        if bit < 31 && (flags & (1 << bit)) != 0 {"),
         ("reader-table-256", "src/aset.rs", "for _ in 0..257 {", "for _ in 0..256 {"),
         ("writer-group-omitted-if-only-first-slot", "src/aset.rs", "if set_flags != 0 {\n                    main_flags", "if set_flags > 1 {\n                    main_flags"),
